@@ -343,22 +343,26 @@ Definition obj_payload (obj : list (string * value)) : option (list byte) :=
 (** Encode declaration [d] (with the fields of its ancestors around it). [obj] is the
     value of the LEAF declaration, [cs] its accumulated constraints, [payload] what
     goes where [d]'s payload/body field is. *)
+Definition ref_rec_of
+           (self : decl -> list field -> list constr -> list (string * value) -> list seg -> option (list seg))
+           (fl : file) (tid : string) (v : value) : option (list seg) :=
+  match lookup_decl fl tid, v with
+  | Some d', VObj o =>
+      match obj_payload o with
+      | Some pl => self d' (iter_fields fl d') (iter_constraints fl d') o [raw_seg pl]
+      | None => None
+      end
+  | _, _ => None
+  end.
+
 Fixpoint ref_enc_decl (fuel : nat) (fl : file) (d : decl) (all_fields : list field)
          (cs : list constr) (obj : list (string * value)) (payload : list seg)
   : option (list seg) :=
   match fuel with
   | O => None
   | S fuel' =>
-      let rec := fun (tid : string) (v : value) =>
-        match lookup_decl fl tid, v with
-        | Some d', VObj o =>
-            match obj_payload o with
-            | Some pl => ref_enc_decl fuel' fl d' (iter_fields fl d') (iter_constraints fl d') o [raw_seg pl]
-            | None => None
-            end
-        | _, _ => None
-        end in
-      match ref_enc_fields fl rec d all_fields cs obj payload (decl_fields d) 0 0 with
+      match ref_enc_fields fl (ref_rec_of (ref_enc_decl fuel' fl) fl) d all_fields cs obj payload
+                           (decl_fields d) 0 0 with
       | Some bs =>
           match get_parent fl d with
           | Some p => ref_enc_decl fuel' fl p all_fields cs obj bs
